@@ -370,9 +370,25 @@ func tarScannable(ct Content) bool {
 // xzOverZeroReads: github.com/ulikunitz/xz fails with "no data" when its source returns (0, nil)
 // (allowed by io.Reader, but that decoder does not tolerate it): an intact xz layer over a source
 // that produces such reads legitimately ends in an error, so the non-vacuity clause is not applied.
-func xzOverZeroReads(c *Case) bool {
+func xzOverZeroReads(c *Case, w world) bool {
 	if c.Content.Comp != "xz" {
 		return false
+	}
+	// reghttp's Resp.Read itself returns (0, nil) when a dropped body had delivered nothing in that
+	// call and the range resume succeeded
+	var rw *regWorld
+	switch x := w.(type) {
+	case *regWorld:
+		rw = x
+	case *dataWorld:
+		rw, _ = x.backing.(*regWorld)
+	}
+	if rw != nil {
+		for _, r := range rw.recs {
+			if r.effective {
+				return true
+			}
+		}
 	}
 	for _, p := range c.Passes {
 		for _, x := range p.Chunks {
@@ -678,8 +694,26 @@ func check(c Case, ev *evid.Collector) *evid.Violation {
 					sig = "tar-walk-and-close-never-verify"
 				}
 				violation = evid.V(sig, "entry %s, mode %s, pass %d: the read ended cleanly (%s) although the %s (%d bytes, %s) do not match the descriptor {digest %s (content of %d bytes), size %d}: %s; served stream: %s of %d bytes; earlier errors in this pass: %v",
-					entryClass(&c), c.Mode, p, map[bool]string{true: "errs.ErrFileNotFound / nil from Close after the archive walk", false: "io.EOF / nil"}[o.noBytes], src, len(judged), digestOf(c.Algo, judged), dig, len(content), declSize, what,
+					entryClass(&c), c.Mode, p, map[string]string{"tar-readfile": "errs.ErrFileNotFound", "tar-walk": "io.EOF from the archive walk, nil from Close", "ociconfig": "nil from ToOCIConfig"}[c.Mode] + map[bool]string{true: "", false: "io.EOF / nil"}[o.noBytes], src, len(judged), digestOf(c.Algo, judged), dig, len(content), declSize, what,
 					ps.Corr.Kind, len(S), o.errMsgs)
+				return finish()
+			}
+		}
+
+		// ---- clause (1b): an over-long stream must not end cleanly even when the bytes handed out are
+		// exactly the content: a pass that ends cleanly without any earlier error must have consumed the
+		// source up to and including its end (registry / generated reader: observed at the source; layout
+		// file and inline data: the bytes handed out must be the whole file / data)
+		if len(o.cleanAt) > 0 && !o.cleanAfter[0] && !o.noBytes {
+			short := false
+			if done, ok := drained(); ok {
+				short = !done
+			} else {
+				short = !bytes.Equal(o.got[:o.cleanAt[0]], S)
+			}
+			if short {
+				violation = evid.V("clean-end-before-end-of-stream"+suffix, "entry %s, mode %s, pass %d: the read ended cleanly after %d bytes although the source had not reached the end of its stream (%s of %d bytes; descriptor size %d): trailing bytes of an over-long stream go unnoticed; GETs: %s",
+					entryClass(&c), c.Mode, p, o.cleanAt[0], ps.Corr.Kind, len(S), declSize, describeGets(w))
 				return finish()
 			}
 		}
@@ -698,7 +732,7 @@ func check(c Case, ev *evid.Collector) *evid.Violation {
 		}
 		benign, why := isBenign()
 		nv := !o.interrupted && intactSoFar && descConsistent && benign && progressPossible(&c) && c.Cancel == 0 &&
-			((c.Mode != "tar-readfile" && c.Mode != "tar-walk") || (tarScannable(c.Content) && !xzOverZeroReads(&c)))
+			((c.Mode != "tar-readfile" && c.Mode != "tar-walk") || (tarScannable(c.Content) && !xzOverZeroReads(&c, w)))
 		if nv {
 			labels = append(labels, "nonvacuity:applied"+suffix)
 			if isBlocked(w) {
@@ -1085,6 +1119,9 @@ func caseFeatures(c *Case) []string {
 		out = append(out, "redirect")
 	}
 	out = append(out, fmt.Sprintf("retry%d/conc%d", c.RetryLimit, c.ReqConcurrent))
+	out = append(out, fmt.Sprintf("%s/ref%d", e, c.RefForm), fmt.Sprintf("%s/cancel%d", e, min(c.Cancel, 3)), "mt:"+c.MediaType,
+		fmt.Sprintf("ext%d/redir%d/mirror%v", c.External, c.RedirectStatus, c.Mirror != nil), "hdr:"+c.Passes[0].hdrKind()+"/"+e,
+		fmt.Sprintf("viaresp%v/tardirect%v/badseek%v", c.ViaResp, c.TarDirect, c.BadSeek), "comp:"+c.Content.Comp)
 	return out
 }
 
